@@ -52,8 +52,11 @@ def gen_case(rng: Rng, i: int, tier: str):
         if tier == "thorough" and r.chance(0.5):
             st["line_p"] = r.pick([0.005, 0.02, 0.1])  # line-level pre-emption inside py7zr frames
         scheds.append(st)
-    return {"archive": arc, "call": op, "open": r.pick(["path", "stream"]), "handler_ms": r.wpick([(4, 0), (2, 1), (2, 10), (2, 50)]),
-            "clock_jump": r.pick([0.0, 0.3, 1.5]), "scheds": scheds}
+    return {"archive": arc, "call": op, "open": r.pick(["path", "stream", "anon"]), "handler_ms": r.wpick([(4, 0), (2, 1), (2, 10), (2, 50)]),
+            "clock_jump": r.pick([0.0, 0.3, 1.5]), "scheds": scheds,
+            # what else the callback object is: a plain object, a progress tracker that is also a sized collection of the
+            # members finished so far (empty, hence falsy, when extraction starts), or an object whose truth value is False
+            "cb_shape": rng.sub("shape").wpick([(6, "plain"), (2, "sized"), (1, "falsy")])}
 
 
 def _one(py7zr, built, case, strat, res):
@@ -103,6 +106,12 @@ def _one(py7zr, built, case, strat, res):
         def report_warning(self, message):
             self._ev("w", message)
 
+    shape = case.get("cb_shape", "plain")
+    if shape == "sized":
+        Rec.__len__ = lambda self: sum(1 for h in hist if h[3] == "e")
+    elif shape == "falsy":
+        Rec.__bool__ = lambda self: False
+
     base = rw.make_factory()
 
     class F(type(base)):
@@ -115,7 +124,7 @@ def _one(py7zr, built, case, strat, res):
     out = {"extract_error": None, "close_error": None, "dead": None, "queued_at_close": 0}
     with Seams(fs=fs, extra=extra):
         try:
-            target = rsess.READ_PATH if case["open"] == "path" else SimRaw(fs.get(rsess.READ_PATH), readable=True)
+            target = rsess.READ_PATH if case["open"] == "path" else SimRaw(fs.get(rsess.READ_PATH), readable=True, anonymous=case["open"] == "anon")
             z = py7zr.SevenZipFile(target, "r", password=built.password)
             try:
                 try:
@@ -224,7 +233,8 @@ def run_case(case):
         res["sim_time"] += sched.now
         backlog_s = o["queued_at_close"] * case["handler_ms"] / 1000.0
         bclass = "B" if backlog_s >= 0.95 else "A"
-        cls = {"open": case["open"], "multi": built.nfolders > 1, "call": case["call"]["op"], "handler_ms": case["handler_ms"], "backlog_class": bclass}
+        cls = {"open": case["open"], "multi": built.nfolders > 1, "call": case["call"]["op"], "handler_ms": case["handler_ms"], "backlog_class": bclass,
+               "cb_shape": case.get("cb_shape", "plain")}
         cls.update(gen.dep_flags([s.get("chain") for s in case["archive"]["sessions"]], None, None))
         if o["dead"] is not None:
             res["violations"].append({"fp": {"oracle": "deadlock", "site": "scheduler", "class": cls}, "detail": "%s (strategy %r)" % (o["dead"], strat)})
